@@ -90,6 +90,9 @@ def main():
     mod = importlib.import_module(prop.lower())
     if args.replay:
         return mod.replay(args.replay, drv.Driver())
+    import glob
+    for old in glob.glob(os.path.join(VERIF, "replays", "%s-*.json" % prop)):
+        os.unlink(old)
     known = load_known(prop)
     ctx = {"tier": tier, "seed": seed, "known": known, "verif": VERIF, "jobs": args.jobs}
     if hasattr(mod, "run"):
